@@ -263,6 +263,12 @@ func (g *G) inline(k int) string {
 				g.pop()
 			}
 			n = 2
+		case "brlast":
+			// a line break as the last child of an inline element, text going on after it
+			m := g.intn(1, max(1, n-1), "brlastw")
+			bt := g.pick("brlasttag", "b", "em", "span", "i")
+			parts = append(parts, "<"+bt+">"+g.words(m)+"<br></"+bt+">"+g.words(max(1, n-m)))
+			n = m + max(1, n-m)
 		case "mxss":
 			parts = append(parts, g.foreignRawText()+" "+g.words(n))
 		case "escaped":
@@ -530,6 +536,9 @@ func (g *G) cell() string {
 			m := g.tokp("map")
 			return `<img src="` + g.url("img") + `" usemap="#` + m + `"><map name="` + m + `"><area shape="rect" coords="0,0,5,5" href="` + g.url("a") + `" alt="` + g.tokp("alt") + `"></map>` + g.words(1)
 		}
+		if g.intn(0, 2, "cellss") == 0 {
+			return `<img srcset="` + g.srcset("srcset") + `" src="` + g.url("img") + `"` + g.at("img") + ">" + g.words(1)
+		}
 		return `<img src="` + g.url("img") + `"` + g.at("img") + ">" + g.words(1)
 	case "list":
 		return "<ul><li>" + g.words(g.intn(1, 5, "clw")) + "</li><li>" + g.words(g.intn(1, 5, "clw2")) + "</li></ul>"
@@ -574,6 +583,9 @@ func (g *G) srcset(kind string) string {
 func (g *G) img() string {
 	s := `<img src="` + g.url("img") + `" alt="` + g.tokp("alt") + `"`
 	switch g.intn(0, 9, "imglazy") {
+	case 7:
+		// two lazy attributes with different values: the documented priority decides
+		s = `<img src="/static/placeholder.gif" data-original="` + g.url("img") + `" data-src="` + g.url("img") + `" alt="` + g.tokp("alt") + `"`
 	case 8:
 		s += ` data-src="` + g.url("img") + `"`
 	case 9:
@@ -590,7 +602,12 @@ func (g *G) img() string {
 
 func (g *G) picture() string {
 	var b strings.Builder
-	b.WriteString("<picture" + g.at("picture") + ">")
+	b.WriteString("<picture")
+	if g.intn(0, 5, "piclazy") == 0 {
+		// lazy-loading libraries also put their attributes on the <picture> itself
+		b.WriteString(` data-srcset="` + g.srcset("srcset") + `"`)
+	}
+	b.WriteString(g.at("picture") + ">")
 	if g.P.Carriers > 0 && g.chance(25, "piccomment") {
 		b.WriteString(strings.TrimSpace(g.comment()))
 	}
@@ -718,6 +735,10 @@ func (g *G) hiddenOpen(tag string) string {
 		// the same declarations in other spellings CSS allows
 		` style="display:none !important"`, ` style="display:none!important;"`, ` style="display : none"`, ` style="display :none;"`,
 		` style="visibility : hidden"`, ` style="color:red; visibility: hidden"`, ` style="display:inline;display:none"`, ` style="display:block; display: none;"`, ` style="display:none/**/"`, ` style="/* x */display:none"`)
+	if !strings.Contains(mech, "aria-hidden") && g.intn(0, 9, "hidfallback") == 0 {
+		// the class that exempts an aria-hidden element exempts nothing else
+		mech += g.pick("hidfbcls", ` class="mwe-math-fallback-image-inline"`, ` class="fallback-image"`)
+	}
 	return "<" + tag + mech + g.at(tag) + ">"
 }
 
@@ -898,9 +919,18 @@ func (g *G) block(kind string) string {
 			inner = g.linkCluster() + g.para()
 		}
 		return "<div" + marker + ">" + inner + "</div>\n"
+	case "linkwrapped":
+		// a block whose only content is a link around one inline element
+		tag := g.pick("lwtag", "h2", "h3", "p", "div")
+		in := g.pick("lwin", "em", "b", "span", "strong")
+		return "<" + tag + `><a href="` + g.url("a") + `"><` + in + ">" + g.words(g.intn(3, 30, "lww")) + "</" + in + "></a></" + tag + ">\n"
 	case "wrappedmedia":
 		m := g.pick("wmk", strings.TrimSpace(g.img()), strings.TrimSpace(g.video()), strings.TrimSpace(g.youtube()), strings.TrimSpace(g.figure()))
 		tag := g.pick("wmtag", "div", "section", "header", "div")
+		if g.chance(40, "wmdirect") {
+			// a text-less wrapper whose last element child is a line break
+			return "<" + tag + ` align="center">` + m + "<br></" + tag + ">\n"
+		}
 		return "<" + tag + "><p>" + m + "<br></p></" + tag + ">\n"
 	case "texttable":
 		// bare inline text sharing its container with a data table (and other media) that follows it directly
